@@ -105,7 +105,7 @@ func aggrChunks(metas []chunks.Meta) []storepb.AggrChunk {
 }
 
 func readback(metas []chunks.Meta, aggrs []storepb.Aggr) ([]downsampleutil.S, error) {
-	out, err, rerr := readSeries(aggrChunks(metas), aggrs)
+	out, err, rerr := readSeries(aggrChunks(metas), aggrs, downsampleutil.ToInt)
 	if err == nil {
 		err = rerr
 	}
@@ -114,7 +114,7 @@ func readback(metas []chunks.Meta, aggrs []storepb.Aggr) ([]downsampleutil.S, er
 
 // readSeries reads cs through pkg/query's chunkSeries. err: harness problem; rerr: the
 // iterator's Err() after it returned ValNone.
-func readSeries(cs []storepb.AggrChunk, aggrs []storepb.Aggr) (out []downsampleutil.S, err, rerr error) {
+func readSeries(cs []storepb.AggrChunk, aggrs []storepb.Aggr, conv func(float64) (int64, error)) (out []downsampleutil.S, err, rerr error) {
 	if len(cs) == 0 {
 		return nil, nil, nil
 	}
@@ -125,7 +125,7 @@ func readSeries(cs []storepb.AggrChunk, aggrs []storepb.Aggr) (out []downsampleu
 	it := set.At().Iterator(nil)
 	for it.Next() != chunkenc.ValNone {
 		t, v := it.At()
-		z, err := downsampleutil.ToInt(v)
+		z, err := conv(v)
 		if err != nil {
 			return nil, err, nil
 		}
@@ -161,7 +161,10 @@ func runFault(in input, metas []chunks.Meta) (common.Case, error) {
 	if len(cs) == 0 {
 		return c, fmt.Errorf("no chunks")
 	}
-	orig, _, rerr := readSeries(cs, aggrs)
+	// values are compared for equality only: a truncated XOR chunk may decode to arbitrary
+	// floats, so every value of a fault case is represented by its bit pattern
+	bits := func(v float64) (int64, error) { return int64(math.Float64bits(v)), nil }
+	orig, _, rerr := readSeries(cs, aggrs, bits)
 	if rerr != nil {
 		return c, fmt.Errorf("intact series does not read back: %v", rerr)
 	}
@@ -184,10 +187,7 @@ func runFault(in input, metas []chunks.Meta) (common.Case, error) {
 		var ss []downsampleutil.S
 		for it.Next() != chunkenc.ValNone {
 			t, v := it.At()
-			z, err := downsampleutil.ToInt(v)
-			if err != nil {
-				return c, err
-			}
+			z, _ := bits(v)
 			ss = append(ss, downsampleutil.S{T: t, V: z})
 		}
 		if it.Err() != nil {
@@ -195,7 +195,7 @@ func runFault(in input, metas []chunks.Meta) (common.Case, error) {
 		}
 		parts = append(parts, common.Pair(downsampleutil.SamplesCoq(ss), common.Bool(it.Err() != nil)))
 	}
-	rb, err, rerr := readSeries(cs, aggrs)
+	rb, err, rerr := readSeries(cs, aggrs, bits)
 	if err != nil {
 		return c, err
 	}
@@ -256,7 +256,7 @@ func run(raw json.RawMessage) (common.Case, error) {
 	mint, maxt := in.Samples[0].T, in.Samples[len(in.Samples)-1].T
 	nc := downsample.VerifC36TargetChunkCount(mint, maxt, 60000, in.Res, len(in.Samples))
 	metas := downsample.DownsampleRaw(data, in.Res)
-	if in.Fault != nil {
+	if in.Fault != nil && len(metas) > 0 { // nothing to truncate in an all-NaN series
 		return runFault(in, metas)
 	}
 	out, err := downsampleutil.DecodeMetas(metas)
